@@ -33,7 +33,8 @@ CONSTANTS Keys, Tss, Pls,
           Crashes,    \* BOOLEAN
           Evict,      \* BOOLEAN: eviction task and clock
           Eviction,   \* retention period
-          MaxNow, Now0
+          MaxNow, Now0,
+          KeepRunning \* TRUE: the store is never closed (liveness configurations)
 VARIABLES durable,    \* [pk: [Keys -> packet], ix: set of <<ts, key>>]   the committed database
           work,       \* the open write transaction's view (= durable when none is open)
           open, n,    \* transaction open?  messages handled in it
@@ -99,8 +100,8 @@ CommitFull == /\ mode = "run" /\ open /\ n >= B /\ DoCommit
               /\ UNCHANGED <<work, inbox, replied, sent, acked, mode, now, published, wl>> /\ Track
 CommitTimeout == /\ Timeouts /\ mode = "run" /\ open /\ n < B /\ DoCommit
                  /\ UNCHANGED <<work, inbox, replied, sent, acked, mode, now, published, wl>> /\ Track
-\* the store is dropped once the client has all replies (configurations with eviction keep it running)
-Close == /\ ~Evict /\ mode = "run" /\ sent = acked /\ ~replied /\ sent = MaxMsgs /\ inbox = <<>>
+\* the store is dropped once the client has all replies (unless KeepRunning)
+Close == /\ ~KeepRunning /\ mode = "run" /\ sent = acked /\ ~replied /\ sent = MaxMsgs /\ inbox = <<>>
          /\ mode' = "closed"
          /\ IF open THEN DoCommit ELSE UNCHANGED <<durable, open, n, committedUps, batchUps>>
          /\ UNCHANGED <<work, inbox, replied, sent, acked, now, published, wl>> /\ Track
